@@ -31,10 +31,18 @@ type ftCfg struct {
 	Dir    string `json:"dir"`
 	Chunks []int  `json:"chunks,omitempty"` // legal short-read plan for the simulated device
 	Key    int    `json:"key,omitempty"`
+	// ShortWrite > 0: the device accepts only that many bytes of a write and
+	// reports the short count without an error.
+	ShortWrite int `json:"short_write,omitempty"`
+	// Clients > 1: the operations are issued by that many caller goroutines
+	// (each on its own variables) under the seeded scheduler; every
+	// filesystem call is a yield point.
+	Clients int `json:"clients,omitempty"`
 }
 
 type ftOp struct {
-	Op  string  `json:"op"`  // write | read
+	C   int     `json:"c,omitempty"` // issuing client (interleaved runs)
+	Op  string  `json:"op"`          // write | read
 	API string  `json:"api"` // obj.WriteVar, legacy.WriteEfivarsWithGuid, obj.GetVar, typed.Getdb, …
 	Var VarSpec `json:"var"`
 	// write: the value
@@ -103,6 +111,7 @@ type fstraceEngine struct {
 type ftCase struct {
 	cfg ftCfg
 	ops []ftOp
+	sw  []Switch
 }
 
 func init() { register(&fstraceEngine{}) }
@@ -146,10 +155,10 @@ func (e *fstraceEngine) gridCases() []ftCase {
 					if di > 0 && vi > 0 {
 						continue
 					}
-					out = append(out, ftCase{ftCfg{Dir: dir}, []ftOp{{Op: "write", API: api, Var: vs, Val: val}}})
+					out = append(out, ftCase{cfg: ftCfg{Dir: dir}, ops: []ftOp{{Op: "write", API: api, Var: vs, Val: val}}})
 				}
 				av := VarSpec{Sym: p.Sym, Attrs: req | 0x40, AttrsSet: true}
-				out = append(out, ftCase{ftCfg{Dir: dir}, []ftOp{{Op: "write", API: api, Var: av, Val: vals[0]}}})
+				out = append(out, ftCase{cfg: ftCfg{Dir: dir}, ops: []ftOp{{Op: "write", API: api, Var: av, Val: vals[0]}}})
 			}
 			// reads: every stored-mask relation, present / absent / short
 			for _, api := range ftReadAPIs {
@@ -157,28 +166,28 @@ func (e *fstraceEngine) gridCases() []ftCase {
 					if di > 0 && m != req && m != 0 {
 						continue
 					}
-					out = append(out, ftCase{ftCfg{Dir: dir}, []ftOp{{Op: "read", API: api, Var: vs, Stored: &StoredSpec{Mask: m, Val: vals[0]}}}})
+					out = append(out, ftCase{cfg: ftCfg{Dir: dir}, ops: []ftOp{{Op: "read", API: api, Var: vs, Stored: &StoredSpec{Mask: m, Val: vals[0]}}}})
 				}
 				if di == 0 {
-					out = append(out, ftCase{ftCfg{Dir: dir}, []ftOp{{Op: "read", API: api, Var: vs, Stored: &StoredSpec{Absent: true}}}})
+					out = append(out, ftCase{cfg: ftCfg{Dir: dir}, ops: []ftOp{{Op: "read", API: api, Var: vs, Stored: &StoredSpec{Absent: true}}}})
 					for n := 0; n <= 3; n++ {
-						out = append(out, ftCase{ftCfg{Dir: dir}, []ftOp{{Op: "read", API: api, Var: vs, Stored: &StoredSpec{IsShrt: true, Short: n, Mask: req}}}})
+						out = append(out, ftCase{cfg: ftCfg{Dir: dir}, ops: []ftOp{{Op: "read", API: api, Var: vs, Stored: &StoredSpec{IsShrt: true, Short: n, Mask: req}}}})
 					}
-					out = append(out, ftCase{ftCfg{Dir: dir}, []ftOp{{Op: "read", API: api, Var: vs, Stored: &StoredSpec{Mask: req, Val: ValSpec{Kind: "raw", N: 0}}}}})
-					out = append(out, ftCase{ftCfg{Dir: dir}, []ftOp{{Op: "read", API: api, Var: vs, SinkFails: true, Stored: &StoredSpec{Mask: req, Val: vals[0]}}}})
+					out = append(out, ftCase{cfg: ftCfg{Dir: dir}, ops: []ftOp{{Op: "read", API: api, Var: vs, Stored: &StoredSpec{Mask: req, Val: ValSpec{Kind: "raw", N: 0}}}}})
+					out = append(out, ftCase{cfg: ftCfg{Dir: dir}, ops: []ftOp{{Op: "read", API: api, Var: vs, SinkFails: true, Stored: &StoredSpec{Mask: req, Val: vals[0]}}}})
 				}
 			}
 		}
 		// name-resolving legacy entry points and typed accessors
 		for _, n := range []string{"PK", "KEK", "Db", "Dbx", "SetupMode", "BootOrder"} {
 			vs := VarSpec{Sym: n}
-			out = append(out, ftCase{ftCfg{Dir: dir}, []ftOp{{Op: "write", API: "legacy.WriteEfivars", Var: vs, Val: vals[0]}}})
-			out = append(out, ftCase{ftCfg{Dir: dir}, []ftOp{{Op: "read", API: "legacy.ReadEfivars", Var: vs, Stored: &StoredSpec{Mask: uint32(predefinedVar(n).Attributes), Val: vals[0]}}}})
+			out = append(out, ftCase{cfg: ftCfg{Dir: dir}, ops: []ftOp{{Op: "write", API: "legacy.WriteEfivars", Var: vs, Val: vals[0]}}})
+			out = append(out, ftCase{cfg: ftCfg{Dir: dir}, ops: []ftOp{{Op: "read", API: "legacy.ReadEfivars", Var: vs, Stored: &StoredSpec{Mask: uint32(predefinedVar(n).Attributes), Val: vals[0]}}}})
 		}
 		for _, n := range []string{"PK", "KEK", "Db", "Dbx"} {
-			out = append(out, ftCase{ftCfg{Dir: dir}, []ftOp{{Op: "write", API: "efi.WriteEFIVariable", Var: VarSpec{Sym: n}, Val: vals[0]}}})
-			out = append(out, ftCase{ftCfg{Dir: dir, Key: di}, []ftOp{{Op: "write", API: "obj.WriteSignedUpdate", Var: VarSpec{Sym: n}, Val: vals[0]}}})
-			out = append(out, ftCase{ftCfg{Dir: dir, Key: di}, []ftOp{{Op: "write", API: "obj.WriteSignedUpdate", Var: VarSpec{Sym: n, Attrs: uint32(predefinedVar(n).Attributes) | 0x40, AttrsSet: true}, Val: vals[0]}}})
+			out = append(out, ftCase{cfg: ftCfg{Dir: dir}, ops: []ftOp{{Op: "write", API: "efi.WriteEFIVariable", Var: VarSpec{Sym: n}, Val: vals[0]}}})
+			out = append(out, ftCase{cfg: ftCfg{Dir: dir, Key: di}, ops: []ftOp{{Op: "write", API: "obj.WriteSignedUpdate", Var: VarSpec{Sym: n}, Val: vals[0]}}})
+			out = append(out, ftCase{cfg: ftCfg{Dir: dir, Key: di}, ops: []ftOp{{Op: "write", API: "obj.WriteSignedUpdate", Var: VarSpec{Sym: n, Attrs: uint32(predefinedVar(n).Attributes) | 0x40, AttrsSet: true}, Val: vals[0]}}})
 		}
 		for _, acc := range ftTyped {
 			req := uint32(acc.v().Attributes)
@@ -186,10 +195,10 @@ func (e *fstraceEngine) gridCases() []ftCase {
 				if di > 0 && m != req {
 					continue
 				}
-				out = append(out, ftCase{ftCfg{Dir: dir}, []ftOp{{Op: "read", API: "typed." + acc.name, Var: acc.spec, Stored: &StoredSpec{Mask: m, Val: acc.val}}}})
+				out = append(out, ftCase{cfg: ftCfg{Dir: dir}, ops: []ftOp{{Op: "read", API: "typed." + acc.name, Var: acc.spec, Stored: &StoredSpec{Mask: m, Val: acc.val}}}})
 			}
-			out = append(out, ftCase{ftCfg{Dir: dir}, []ftOp{{Op: "read", API: "typed." + acc.name, Var: acc.spec, Stored: &StoredSpec{Absent: true}}}})
-			out = append(out, ftCase{ftCfg{Dir: dir}, []ftOp{{Op: "read", API: "typed." + acc.name, Var: acc.spec, Stored: &StoredSpec{IsShrt: true, Short: 2, Mask: req}}}})
+			out = append(out, ftCase{cfg: ftCfg{Dir: dir}, ops: []ftOp{{Op: "read", API: "typed." + acc.name, Var: acc.spec, Stored: &StoredSpec{Absent: true}}}})
+			out = append(out, ftCase{cfg: ftCfg{Dir: dir}, ops: []ftOp{{Op: "read", API: "typed." + acc.name, Var: acc.spec, Stored: &StoredSpec{IsShrt: true, Short: 2, Mask: req}}}})
 		}
 	}
 	e.grid = out
@@ -298,16 +307,54 @@ func (e *fstraceEngine) Gen(seed uint64, tier string, run int) *Trace {
 		c.cfg.Key = r.Intn(4)
 		nops := r.Range(1, 4)
 		vars := []VarSpec{genVarSpec(r), genVarSpec(r)}
+		if r.Chance(1, 4) {
+			// two variables that share the name and differ only in the vendor GUID
+			tw := vars[0]
+			if tw.Sym != "" {
+				v := tw.Var()
+				tw = VarSpec{Name: v.Name, Attrs: uint32(v.Attributes)}
+			}
+			tw.GUID = fmt.Sprintf("%x", r.Bytes(16))
+			vars[1] = tw
+		}
+		mode := r.Intn(10)
+		if mode == 0 {
+			c.cfg.ShortWrite = r.Range(1, 6)
+		}
+		if mode == 1 || mode == 2 {
+			// interleaved callers, each on a variable of its own
+			c.cfg.Clients = r.Range(2, 3)
+			vars = nil
+			for len(vars) < c.cfg.Clients {
+				v := genVarSpec(r)
+				dup := false
+				for _, o := range vars {
+					a, b := o.Var(), v.Var()
+					if a.Name == b.Name && *a.GUID == *b.GUID {
+						dup = true
+					}
+				}
+				if !dup {
+					vars = append(vars, v)
+				}
+			}
+			nops = r.Range(c.cfg.Clients, 2*c.cfg.Clients)
+		}
 		for i := 0; i < nops; i++ {
 			v := Pick(r, vars)
+			cl := 0
+			if c.cfg.Clients > 1 {
+				cl = i % c.cfg.Clients
+				v = vars[cl]
+			}
 			if r.Bool() {
 				api := Pick(r, ftWriteAPIs)
-				if r.Chance(1, 12) && v.Sym != "" {
+				if r.Chance(1, 12) && v.Sym != "" && c.cfg.Clients <= 1 {
 					api = "obj.WriteSignedUpdate"
 				}
-				c.ops = append(c.ops, ftOp{Op: "write", API: api, Var: v, Val: genVal(r)})
+				c.ops = append(c.ops, ftOp{C: cl, Op: "write", API: api, Var: v, Val: genVal(r)})
 			} else {
-				op := ftOp{Op: "read", API: Pick(r, ftReadAPIs), Var: v, SinkFails: r.Chance(1, 20)}
+				op := ftOp{C: cl, Op: "read", API: Pick(r, ftReadAPIs), Var: v, SinkFails: r.Chance(1, 20)}
 				if r.Chance(2, 3) {
 					req := uint32(v.Var().Attributes)
 					st := &StoredSpec{Val: genVal(r)}
@@ -331,9 +378,16 @@ func (e *fstraceEngine) Gen(seed uint64, tier string, run int) *Trace {
 				c.ops = append(c.ops, op)
 			}
 		}
+		if c.cfg.Clients > 1 {
+			est := 6 * nops
+			gap := Pick(r, []int{1, 1, 2, 3})
+			for y := r.Intn(gap + 1); y < est; y += 1 + r.Intn(2*gap) {
+				c.sw = append(c.sw, Switch{Yield: y, Next: r.Intn(c.cfg.Clients)})
+			}
+		}
 	}
 	return &Trace{Property: "C11", Engine: "fstrace", Seed: seed, Run: run, Tier: tier,
-		Cfg: mustJSON(c.cfg), Ops: rawList(c.ops), Faults: []json.RawMessage{}, Schedule: []json.RawMessage{}}
+		Cfg: mustJSON(c.cfg), Ops: rawList(c.ops), Faults: []json.RawMessage{}, Schedule: rawList(c.sw)}
 }
 
 // ---- firmware model: the efivarfs contract the property relies on ----
@@ -407,7 +461,11 @@ func (e *fstraceEngine) Exec(tr *Trace, x *X) {
 			needClock = true
 		}
 	}
-	run := func() { ftExec(c, ops, x) }
+	sw, err := unrawList[Switch](tr.Schedule)
+	if err != nil {
+		harnessf("fstrace schedule: %v", err)
+	}
+	run := func() { ftExec(c, ops, sw, x) }
 	if needClock {
 		if pv := inBubble(x.T, time.Date(2031, 3, 4, 5, 6, 7, 0, time.UTC), "", run); pv != nil {
 			panic(pv)
@@ -417,7 +475,7 @@ func (e *fstraceEngine) Exec(tr *Trace, x *X) {
 	}
 }
 
-func ftExec(c ftCfg, ops []ftOp, x *X) {
+func ftExec(c ftCfg, ops []ftOp, sw []Switch, x *X) {
 	plane := NewPlane(x)
 	mem := afero.NewMemMapFs()
 	sfs := NewSimFs(mem, plane, x)
@@ -434,10 +492,7 @@ func ftExec(c ftCfg, ops []ftOp, x *X) {
 	cleanDir := path.Clean(c.Dir)
 	mem.MkdirAll(cleanDir, 0o755)
 
-	for i, op := range ops {
-		if x.Failed() {
-			return
-		}
+	runOp := func(i int, op ftOp) {
 		v := op.Var.Var()
 		p := path.Clean(refVarPath(c.Dir, v.Name, *v.GUID))
 		x.Steps++
@@ -450,8 +505,49 @@ func ftExec(c ftCfg, ops []ftOp, x *X) {
 			harnessf("fstrace: unknown op %q", op.Op)
 		}
 	}
+	if c.Clients > 1 {
+		sched := NewSched(x, c.Clients, sw)
+		plane.yield = sched.Yield
+		tags := make([]int, c.Clients)
+		sfs.TagFn = func() int { return tags[sched.cur] }
+		ftTagOf = func(i int) int { return i + 1 }
+		bodies := make([]func(), c.Clients)
+		for cl := 0; cl < c.Clients; cl++ {
+			cl := cl
+			bodies[cl] = func() {
+				for i, op := range ops {
+					if op.C%c.Clients != cl || x.Failed() {
+						continue
+					}
+					tags[cl] = i + 1
+					runOp(i, op)
+					tags[cl] = 0
+				}
+			}
+		}
+		sched.Run(bodies)
+		plane.yield = nil
+		x.SchedKey = sched.key()
+		x.Probes["yields"] += sched.nyield
+		x.Probes["context_switches"] += len(sched.Switches)
+		if len(sched.Switches) > 0 {
+			x.Probe("interleaved_callers")
+		}
+		x.Nontriv = len(ops) > 0
+		return
+	}
+	ftTagOf = func(int) int { return 0 }
+	for i, op := range ops {
+		if x.Failed() {
+			return
+		}
+		runOp(i, op)
+	}
 	x.Nontriv = len(ops) > 0
 }
+
+// ftTagOf maps an operation index to the tag its filesystem events carry.
+var ftTagOf = func(int) int { return 0 }
 
 // sync the byte store with the firmware model (harness side, not recorded)
 func ftSync(mem afero.Fs, p string, fw *fwModel) {
@@ -473,6 +569,7 @@ func ftWrite(x *X, i int, op ftOp, v efivar.Efivar, p string, c ftCfg, obj *efiv
 		old = append([]byte(nil), before.Data...)
 	}
 	start := len(sfs.Events)
+	sfs.ShortWriteNext = c.ShortWrite
 	var err error
 	var pv any
 	func() {
@@ -500,7 +597,24 @@ func ftWrite(x *X, i int, op ftOp, v efivar.Efivar, p string, c ftCfg, obj *efiv
 		x.Fail("fstrace.no_panic", i, kind, "write panicked: %v", pv)
 		return
 	}
-	evs := sfs.Events[start:]
+	evs := sfs.Since(start, ftTagOf(i))
+	if c.ShortWrite > 0 {
+		// the device took only part of the buffer: whatever the library reports, it must not issue a second write
+		nw := 0
+		for _, ev := range evs {
+			if ev.Call == cWrite || ev.Call == cWriteAt || ev.Call == "file.WriteString" {
+				nw++
+			}
+		}
+		x.Probe("short_write_device")
+		if nw != 1 {
+			x.Fail("fstrace.one_write", i, kind, "the device accepted a short count and the library issued %d writes; each write is one SetVariable call (returned err=%v)", nw, err)
+			return
+		}
+		delete(fw.vars, p)
+		mem.Remove(p)
+		return
+	}
 	if err != nil {
 		x.Fail("fstrace.write_succeeds", i, kind, "fault-free write returned an error: %v", err)
 		return
@@ -678,7 +792,7 @@ func ftRead(x *X, i int, op ftOp, v efivar.Efivar, p string, obj *efivarfs.Efiva
 		x.Fail("fstrace.no_panic", i, kind, "read panicked: %v", pv)
 		return
 	}
-	for _, ev := range sfs.Events[start:] {
+	for _, ev := range sfs.Since(start, ftTagOf(i)) {
 		if ev.mutating() {
 			x.Fail("fstrace.touches_nothing_else", i, kind, "read issued a mutating call %s", ev.String())
 			return
